@@ -907,10 +907,11 @@ def h_rem_euclid(I, st, a, t, b):
 
 def h_signum(I, st, a, t, b):
     x = a[0]
-    if x.lo > 0 or (x.lo == 0 and x.hi >= 0 and False):
-        return Iv(1.0)
-    if x.hi < 0:
-        return Iv(-1.0)
+    # IEEE: signum(+0.0) = 1.0, signum(-0.0) = -1.0
+    if x.lo > 0 or (x.lo == 0 and math.copysign(1.0, x.lo) > 0):
+        return Iv(1.0, 1.0, x.nan)
+    if x.hi < 0 or (x.hi == 0 and math.copysign(1.0, x.hi) < 0):
+        return Iv(-1.0, -1.0, x.nan)
     return Iv(-1.0, 1.0, x.nan)
 
 
